@@ -156,6 +156,36 @@ def _run_rest(prog, tier, obs, info, problems):
                              f"`{p}` must be used only as the argument of self.process_points (uses: {len(uses)}, normalising calls: {len(calls)})",
                              REL, fn.lineno))
 
+    # rows are points and columns are dimensions because the caller says so: process_points never exchanges the axes of what it was
+    # given on the strength of its shape (a batch of d points in d dimensions has the shape of its own transpose)
+    c_pp, pp = prog.method("GpRegressor", "process_points")
+    swaps_ = []
+    for st_ in ast.walk(pp):
+        for n_ in ast.walk(st_) if isinstance(st_, (ast.Assign, ast.AugAssign, ast.Return)) and st_.value is not None else []:
+            if (isinstance(n_, ast.Attribute) and n_.attr == "T") or (isinstance(n_, ast.Call) and U(n_.func).split(".")[-1] in
+                                                                       ("transpose", "swapaxes", "moveaxis", "rollaxis")):
+                swaps_.append((st_.lineno, U(st_)[:80]))
+    obs.append(struct_ob("query-normalisation", qual(c_pp, pp) + "[axes-kept]", not swaps_,
+                         "the query points' axes are exchanged: " + "; ".join(f"line {l_}: `{t_}`" for l_, t_ in swaps_[:2])
+                         + " - the predictors are then evaluated at other points than the caller's", REL, swaps_[0][0] if swaps_ else pp.lineno, tier="F"))
+    # the training data are stored as given, row k of x with entry k of y and of the noise model: the constructor never re-orders or
+    # selects rows of one of them
+    c_in, gin = prog.method("GpRegressor", "__init__")
+    moved = []
+    for st_ in ast.walk(gin):
+        if isinstance(st_, ast.Assign) and len(st_.targets) == 1 and U(st_.targets[0]) in ("self.x", "self.y", "self.y_err", "self.sig"):
+            for n_ in ast.walk(st_.value):
+                if isinstance(n_, ast.Subscript) and U(n_.value) in ("self.x", "self.y", "x", "y", "self.y_err", "y_err", "self.sig"):
+                    idx = n_.slice.elts[0] if isinstance(n_.slice, ast.Tuple) and n_.slice.elts else n_.slice
+                    plain = isinstance(idx, ast.Slice) and idx.lower is None and idx.upper is None and idx.step is None
+                    if not plain and not (isinstance(idx, ast.Constant) and idx.value is None):
+                        moved.append((st_.lineno, U(st_)[:80]))
+        if isinstance(st_, ast.Expr) and isinstance(st_.value, ast.Call) and isinstance(st_.value.func, ast.Attribute) \
+                and st_.value.func.attr in ("sort", "resize") and U(st_.value.func.value) in ("self.x", "self.y", "x", "y"):
+            moved.append((st_.lineno, U(st_)[:80]))
+    obs.append(struct_ob("error-input-typestate", qual(c_in, gin) + "[data-rows-as-given]", not moved,
+                         "training points, values and errors are paired by position: " + "; ".join(f"line {l_}: `{t_}`" for l_, t_ in moved[:2])
+                         + " re-orders / selects rows of one array only", REL, moved[0][0] if moved else gin.lineno, tier="F"))
     obs.extend(default_instance_obligations(prog, "components-not-shared", [('GpRegressor', '__init__')]))
 
     obs.append(refresh_obligation(prog, "state-refreshed", "GpRegressor", "set_hyperparameters"))
@@ -210,6 +240,16 @@ def _error_inputs(prog, c, fn):
         out.append(struct_ob("error-input-typestate", qual(c, fn) + f"[{var}]", ok,
                              f"a list/tuple `{var}` must be converted into `{var}` itself, the name whose .shape/.T are read and "
                              f"which is returned: {why}", REL, conv.lineno if conv is not None else fn.lineno, detail=var))
+    # no errors given means no noise: the remaining arm returns a matrix of zeros (a "nugget" is a noise model the caller did not ask for)
+    arm0 = path_statements(fn.body, {"y_cov": True, "y_err": True})
+    rets0 = [n for st in arm0 for n in ast.walk(st) if isinstance(n, ast.Return) and n.value is not None]
+    rz0_ = Resolver(fn, prog, c.module, c)
+    bad0 = [r for r in rets0 if not any(pmatch(rz0_.term(r.value, r), pt_) is not None for pt_ in
+                                        ("zeros([_n, _n])", "zeros((_n, _n))", "zeros([_n, _n], **_)", "zeros((_n, _n), **_)", "zeros_like(_k)"))]
+    out.append(struct_ob("error-input-typestate", qual(c, fn) + "[no-errors-no-noise]", bool(rets0) and not bad0,
+                         "with neither y_err nor y_cov the noise matrix is zero: "
+                         + (f"line {bad0[0].lineno} returns `{U(bad0[0].value)[:80]}`" if bad0 else "no return on that arm"), REL,
+                         bad0[0].lineno if bad0 else fn.lineno, tier="F"))
     # a covariance that is given is used as given: every return of that arm hands back y_cov itself
     rets_cov = [n for st in arms["y_cov"] for n in ast.walk(st) if isinstance(n, ast.Return)]
     other = [r for r in rets_cov if r.value is None or U(r.value) != "y_cov"]
